@@ -761,7 +761,7 @@ def distribution(recs):
         if c['kind'] == 'land':
             k = 'land_%s_%dopt' % ('new' if c['new'] else 'old', len(c['opts']))
             d[k] = d.get(k, 0) + 1
-        elif c['kind'] == 'bpch':
+        elif c['kind'] in ('bpch', 'wline'):
             pass
         elif 'name' in c:
             d['name_' + c['name']] = d.get('name_' + c['name'], 0) + 1
